@@ -29,5 +29,8 @@ def run(ctx):
     # the multithreaded gadget must compute what the serial one does (shared with C14)
     from rules.common import clone_faithful
     clone_faithful(ctx, "R-C05.CL")
+    # every circuit must be evaluable for every bit width its constructor admits (the bit-vector codec's admissibility test, shared with C01)
+    from rules import c01
+    c01.run_bitlength(ctx)
     from rules import c14
     c14.run(ctx)
